@@ -448,6 +448,14 @@ func (en *DefaultEngine) init(ctx context.Context, input []byte) (bool, error) {
 	}
 
 	if len(en.st.Code) == 0 {
+		if en.st.Depth() > -1 && !en.st.MatchFlag(state.FLAG_TERMINATE, true) {
+			// no pending code, but a position left behind by an execution that
+			// failed: start over from the top instead of descending from there.
+			_, err = en.reset(ctx)
+			if err != nil {
+				return false, err
+			}
+		}
 		b := vm.NewLine(nil, vm.MOVE, []string{sym}, nil, nil)
 		cont, err = en.setCode(ctx, b)
 		if err != nil {
